@@ -613,6 +613,34 @@ func (m *Manager) HandleStreamReset(streamID uint64, errorCode uint16) {
 		if m.onStreamClose != nil {
 			m.onStreamClose(stream, fmt.Errorf("stream reset: code=%d", errorCode))
 		}
+		return
+	}
+
+	// The reset can overtake the acknowledgement of an open that is still
+	// pending (a relay reports a lost link before it passes on the
+	// acknowledgement it had already received): the open has failed. If it
+	// were left pending, a late acknowledgement would establish a stream
+	// whose far side no longer exists.
+	m.mu.Lock()
+	var pending *PendingRequest
+	for requestID, p := range m.pendingRequests {
+		if p.Stream != nil && p.Stream.ID == streamID {
+			pending = p
+			delete(m.pendingRequests, requestID)
+			break
+		}
+	}
+	m.mu.Unlock()
+
+	if pending != nil {
+		pending.Timer.Stop()
+		crypto.ZeroKey(&pending.EphemeralPrivate)
+		if pending.Result != nil {
+			pending.Result <- &StreamOpenResult{
+				Error:     fmt.Errorf("stream reset: code=%d", errorCode),
+				ErrorCode: errorCode,
+			}
+		}
 	}
 }
 
